@@ -190,7 +190,8 @@ impl<T: Payload> World<T> {
             sfuts: vec![],
             rfuts: vec![],
             streams: vec![],
-            wakers: vec![WakeCell::new(1, None), WakeCell::new(2, None)],
+            // every other world polls with two wakers that share their data pointer and differ in the vtable only
+            wakers: if pat & 1 == 1 { WakeCell::family(1, 2) } else { vec![WakeCell::new(1, None), WakeCell::new(2, None)] },
             m: RefChan::new(cap),
             comp: HashMap::new(),
             next_op: 1,
@@ -2110,8 +2111,10 @@ fn main() {
     }
 
     // ---- fill-to-the-brim part: large capacities -------------------------------------------
+    // "m": only the phases with unusual destructors (small enough for Miri / the sanitizers)
+    let big_phases = bigfill == "q" || bigfill == "t";
     let mut fill_stats = (0u64, 0u64);
-    if !bigfill.is_empty() && nviol < stop_after {
+    if big_phases && nviol < stop_after {
         let mut caps: Vec<usize> = vec![1000, 4097, 65_535, 65_536, 65_537, 100_001, (1 << 20) - 1, 1 << 20, (1 << 20) + 5, (1 << 21) + 1, (1 << 22) + 3];
         if bigfill == "t" {
             caps.extend_from_slice(&[(1 << 23) + 1, (1 << 24) + 9, (1 << 25) - 1]);
@@ -2220,7 +2223,7 @@ fn main() {
     out.set("reentrant_payload_configurations", J::U(reent_stats.0));
     out.set("reentrant_payload_calls", J::U(reent_stats.1));
     let mut handle_stats = (0u64, 0u64);
-    if !bigfill.is_empty() && nviol < stop_after {
+    if big_phases && nviol < stop_after {
         let n = if bigfill == "t" { (1usize << 25) + 3 } else { (1usize << 21) + 3 };
         for side in 0..2 {
             if let Err(e) = many_handles(n, side == 0, &mut handle_stats) {
